@@ -8,7 +8,7 @@ from harness.drivers import c04
 chk = Check("C04X")
 base = {"op": "none", "kind": "cp", "shape": [], "rank": [], "family": "generic", "how": "function", "mode": 0, "operand": "none", "odim": 0,
         "keep": False, "copy": False, "npad": 0, "padb": False, "lens": [], "maxrank": 0, "thr": 0, "listin": False,
-        "fshapes": [], "coreshape": [], "pshapes": [], "rshapes": []}
+        "fshapes": [], "coreshape": [], "pshapes": [], "rshapes": [], "mag": 0}
 def cfg(**kw):
     c = dict(base); c.update(kw); return c
 evs = []
@@ -40,6 +40,8 @@ v = run("good_compress", cfg(op="svd_compress", kind="slices", shape=[2, 3], ran
                              fshapes=[[1, 1], [4, 3]], rshapes=[[1, 3], [3, 3]]))
 mut(v, "compress_truncated", lambda e: e["out"]["recon"][1]["q"].__setitem__(0, e["out"]["recon"][1]["q"][0] + 100))
 mut(v, "compress_domain", lambda e: e["cfg"].__setitem__("maxrank", 1))
+g = run("good_mag", cfg(op="normalize", kind="tucker", shape=[2, 3], rank=[2, 2], family="generic", mag=-70, fshapes=[[2, 2], [3, 2]], coreshape=[2, 2]), seed=9)
+mut(g, "mag_unnormalised", lambda e: e["out"]["cn"][0].__setitem__(0, 3))
 good = {e["id"] for e in evs if e["id"].startswith("good")}
 rej = chk.validate("TransformsTrace", evs)
 for r in sorted(rej): print(r[:2])
